@@ -181,7 +181,13 @@ namespace ratio
 
 #if defined(VERBOSE_LOG) || defined(BUILD_LISTENERS)
   public:
-    const std::string &guess_name(const item &itm) const noexcept { return expr_names.at(&itm); }
+    const std::string &guess_name(const item &itm) const noexcept
+    {
+        static const std::string unknown; // items which are not reachable by name (e.g. enum values) have no name..
+        if (const auto at_itm = expr_names.find(&itm); at_itm != expr_names.cend())
+            return at_itm->second;
+        return unknown;
+    }
 
   private:
     void recompute_names() noexcept;
